@@ -114,6 +114,17 @@ prop("C20", True,
      note="Trusted: go/ssa, VTA (over-approximate). NOT decided: implicit runtime panics outside the modelled classes (arbitrary index arithmetic, nil maps, third-party type assertions — e.g. the nil schema dereference found and repaired by hand), loop termination, arr.ai bundles. 40 baseline rows are reported as unconfirmed.",
      design="DESIGN.md §3 C20")
 
+prop("C11", True,
+     technique="R-ORDER/R-GUARD/R-DEREF/R-REC from the Load methods of the Go importers, sink-type rule for the text writer, built-in list agreement with the lexer's type words",
+     text="Thin claim, Go importers only — decides: no new map iteration reachable from the importers' Load/LoadFile methods and the Sysl text writer reaches ordered output unsorted (loops flagged on the pinned tree are baseline rows, two are excepted by a commutation argument); explicit panics, process exits, unchecked look-ups and name-following recursion reachable from those entries are classified (known finding: a self-referential XSD complex type overflows the stack); the text writer is constructed over a *bytes.Buffer at every site, so its exit-on-write-error cannot fire; every NativeDataTypes word of the lexer is prefixed by an entry of syslutil.BuiltInTypes, which the type-name escaping rule consults.",
+     note="Trusted: go/ssa, VTA. NOT decided: that importer output compiles as Sysl or is complete (the validated 'required beyond two entries' mutation is invisible); the bundled arr.ai importers (OpenAPI 3 new path, SQL, protobuf) are not Go and are not analysed; 17 baseline loops are blind spots (a sort removed downstream of one of them is not seen).",
+     design="DESIGN.md §3 C11")
+prop("C12", True,
+     technique="R-ORDER from the exporter entry points, kind-table agreement (mapper kind strings and primitive names vs schema-builder cases; primitive enum vs Swagger primitive table), who-may-call rule for the reference resolver, R-REC/R-DEREF/R-GUARD",
+     text="Decides structural necessary conditions: ordered arrays (parameters, required, enum) are not filled from unordered iteration (the three loops that did so on the pinned tree were repaired); every kind string the simplified type mapper can produce and every lower-cased primitive name has a case in the OpenAPI 3 schema builder, and every primitive enum value a key in the Swagger primitive table (nine kinds outside the exportable subset are baseline rows); mapper and schema builders recurse structurally, and AppMapper.ResolveTypes — which would make the type tree cyclic — is not reachable from any command or exporter entry; reference splits are indexed only after length checks or are baseline rows.",
+     note="Trusted: go/ssa, VTA; kin-openapi/go-openapi marshal maps with sorted keys. NOT decided: schema content (required-ness, items of optional arrays — both validated mutations are invisible), validity of the document, re-import.",
+     design="DESIGN.md §3 C12")
+
 for i in range(1, 21):
     pid = "C%02d" % i
     if pid not in P:
